@@ -225,7 +225,7 @@ impl C09 {
         regs[3] = at;
         regs[4] = (regs[4] & 0xF0) | f;
         regs[5] = gen::valid_sp(&mut rng, 0);
-        let setup = Setup { image: Image { bytes, stack: 0, limit: Some(0xFF) }, regs: Some(regs), pokes: vec![], inputs: [rng.u8(), rng.u8(), rng.u8(), rng.u8()], asm_mode: false };
+        let setup = Setup { image: Image { bytes, stack: 0, limit: Some(0xFF), keep_limit: false }, regs: Some(regs), pokes: vec![], inputs: [rng.u8(), rng.u8(), rng.u8(), rng.u8()], asm_mode: false };
         let mut ls = LockStep::new("C09", &setup);
         ls.compare = Compare::Off;
         ls.check_cost = true;
